@@ -19,6 +19,13 @@ import (
 
 func init() {
 	props["C18"] = prop{Run: runC18, Replay: func(id string, raw json.RawMessage) {
+		var w struct {
+			TO *c18TO `json:"timeouts"`
+		}
+		if json.Unmarshal(raw, &w) == nil && w.TO != nil {
+			runC18TO(id, w.TO)
+			return
+		}
 		var c c18Case
 		if json.Unmarshal(raw, &c) == nil {
 			runC18Case(id, &c)
@@ -116,7 +123,18 @@ func runC18(seed uint64, n int, tier string) {
 		cases[i] = genC18(rng.Fork(), rx)
 	}
 	c18rx = rx
-	parallel(n, func(i int) { runC18Case(caseID("C18", seed, i), cases[i]) })
+	nto := 12
+	tos := make([]*c18TO, nto)
+	for i := range tos {
+		tos[i] = genC18TO(rng.Fork())
+	}
+	parallel(n+nto, func(i int) {
+		if i < n {
+			runC18Case(caseID("C18", seed, i), cases[i])
+		} else {
+			runC18TO(caseID("C18", seed, i), tos[i-n])
+		}
+	})
 }
 
 var c18rx map[string]string
@@ -333,6 +351,128 @@ func runC18Case(id string, c *c18Case) {
 				cs.Oracle = fmt.Sprintf("callback %d (once, output not reset) ran and its trigger still held on the unchanged output, yet the operation timed out instead of returning the once error", trace[n-1].i)
 				cs.Sig = "C18:trigger-not-reevaluated"
 			}
+		}
+	}
+	emit(cs)
+}
+
+// ---- timeouts in force (next-timeout, histories): designed dialogues with a slow device.
+// Three callbacks with disjoint triggers — A answers "[confirm]", B answers "filename", C completes
+// on the prompt — against a device that asks the two questions and then shows the prompt, pausing
+// PauseMS before one of its reactions.  The dialogue completes under the property, so the send
+// must return it whenever every pause is shorter than the timeout in force:
+//   reuse: no callback has a next-timeout; a first send (timeout OpMS, no pause) is followed by a
+//          second send of THE SAME callback objects with timeout SecondMS > PauseMS;
+//   next:  one send with timeout OpMS; B announces NextMS > PauseMS and the device pauses right
+//          after B's answer ("the next read after this callback").
+type c18TO struct {
+	Variant string `json:"variant"`
+	OpMS    int    `json:"op_ms"`
+	Second  int    `json:"second_ms,omitempty"`
+	NextMS  int    `json:"next_ms,omitempty"`
+	PauseMS int    `json:"pause_ms"`
+	PauseAt string `json:"pause_at"` // text whose emission is delayed
+	Order   []int  `json:"order"`    // permutation of A, B, C in the list
+}
+
+func genC18TO(r *sim.Rng) *c18TO {
+	c := &c18TO{OpMS: 150, PauseMS: 320 + r.Intn(100)}
+	c.Order = [][]int{{0, 1, 2}, {2, 1, 0}, {1, 0, 2}, {1, 2, 0}, {0, 2, 1}, {2, 0, 1}}[r.Intn(6)]
+	if r.Bool() {
+		c.Variant = "reuse"
+		c.Second = 1500
+		c.PauseAt = r.Pick([]string{"filename", "router#"})
+	} else {
+		c.Variant = "next"
+		c.NextMS = 1500
+		c.PauseAt = "router#" // the reaction to B's answer
+	}
+	return c
+}
+
+func runC18TO(id string, c *c18TO) {
+	defer recoverCase(id, c)
+	cs := &Case{ID: id, Kind: "timeouts-" + c.Variant, HypOK: true, Replay: map[string]interface{}{"timeouts": c}, Nontrivial: true}
+	steps := func() [][]byte {
+		return [][]byte{[]byte("Proceed with reload? [confirm]"), []byte("Destination filename [startup-config]? "), []byte("Copy complete\nrouter#")}
+	}
+	dev := &sim.ScriptDevice{Steps: steps()}
+	tr := sim.NewTransport(dev)
+	d, err := newGeneric(tr, options.WithReadDelay(20*time.Microsecond))
+	if err != nil || d.Open() != nil {
+		cs.Oracle = "driver setup failed"
+		emit(cs)
+		return
+	}
+	defer d.Close()
+	var mu sync.Mutex
+	var ran []int
+	mk := func(i int, needle, answer string, extra ...util.Option) *generic.Callback {
+		oo := append([]util.Option{opoptions.WithCallbackContains(needle)}, extra...)
+		cb, _ := generic.NewCallback(func(dd *generic.Driver, s string) error {
+			mu.Lock()
+			ran = append(ran, i)
+			mu.Unlock()
+			if i == 2 {
+				return nil
+			}
+			return dd.Channel.WriteAndReturn([]byte(answer), false)
+		}, oo...)
+		return cb
+	}
+	var bOpts []util.Option
+	if c.Variant == "next" {
+		bOpts = append(bOpts, opoptions.WithCallbackNextTimeout(time.Duration(c.NextMS)*time.Millisecond))
+	}
+	three := []*generic.Callback{mk(0, "[confirm]", "y"), mk(1, "filename", "", bOpts...), mk(2, "router#", "", opoptions.WithCallbackComplete())}
+	var cbs []*generic.Callback
+	for _, k := range c.Order {
+		cbs = append(cbs, three[k])
+	}
+	pause := func(em []byte) time.Duration {
+		if bytes.Contains(em, []byte(c.PauseAt)) {
+			return time.Duration(c.PauseMS) * time.Millisecond
+		}
+		return 0
+	}
+	want := "Copy complete"
+	switch c.Variant {
+	case "reuse":
+		r1, e1 := d.SendWithCallbacks("reload", cbs, time.Duration(c.OpMS)*time.Millisecond)
+		if e1 != nil || !strings.Contains(r1.Result, want) {
+			cs.Oracle = fmt.Sprintf("first send (no pause, timeout %d ms) did not return the dialogue: %v", c.OpMS, e1)
+			cs.Sig = "C18:timeouts-first-send"
+			emit(cs)
+			return
+		}
+		dev.Rescript(steps())
+		tr.EmitDelayFn = pause
+		mu.Lock()
+		ran = nil
+		mu.Unlock()
+		t0 := time.Now()
+		r2, e2 := d.SendWithCallbacks("reload", cbs, time.Duration(c.Second)*time.Millisecond)
+		el := time.Since(t0)
+		cs.Obs = fmt.Sprintf("second send: err=%v after %d ms, callbacks run %v", e2, el.Milliseconds(), ran)
+		if e2 != nil {
+			cs.Oracle = fmt.Sprintf("the same callbacks sent again with timeout %d ms: the device paused %d ms before %q and the send ended after %d ms with %v (callbacks run: %v) — no callback has a next-timeout, the timeout in force is the send's", c.Second, c.PauseMS, c.PauseAt, el.Milliseconds(), e2, ran)
+			cs.Sig = "C18:stale-timeout"
+		} else if !strings.Contains(r2.Result, want) {
+			cs.Oracle = fmt.Sprintf("second send returned %q, not the whole dialogue", r2.Result)
+			cs.Sig = "C18:timeouts-result"
+		}
+	case "next":
+		tr.EmitDelayFn = pause
+		t0 := time.Now()
+		r1, e1 := d.SendWithCallbacks("reload", cbs, time.Duration(c.OpMS)*time.Millisecond)
+		el := time.Since(t0)
+		cs.Obs = fmt.Sprintf("send: err=%v after %d ms, callbacks run %v", e1, el.Milliseconds(), ran)
+		if e1 != nil {
+			cs.Oracle = fmt.Sprintf("callback B announced a next-timeout of %d ms, the device paused %d ms right after B's answer and the send ended after %d ms with %v (callbacks run: %v)", c.NextMS, c.PauseMS, el.Milliseconds(), e1, ran)
+			cs.Sig = "C18:next-timeout-ignored"
+		} else if !strings.Contains(r1.Result, want) {
+			cs.Oracle = fmt.Sprintf("send returned %q, not the whole dialogue", r1.Result)
+			cs.Sig = "C18:timeouts-result"
 		}
 	}
 	emit(cs)
